@@ -1,0 +1,20 @@
+//go:build !verif
+
+// Package verifhook holds the durable-write failpoints used by the /verif checks.
+// Without the build tag "verif" every function is an empty inlinable stub.
+package verifhook
+
+// Enabled is false unless the binary is built with -tags verif.
+const Enabled = false
+
+// Write is called immediately before a durable write at the named site.
+func Write(site string, key []byte) {}
+
+// Err may return an injected error for the named site (never without the tag).
+func Err(site string, key []byte) error { return nil }
+
+// Cut may ask the caller to write only a prefix of b and then die (never without the tag).
+func Cut(site string, b []byte) ([]byte, bool) { return nil, false }
+
+// Die ends the process / goroutine the way the armed failpoint prescribes.
+func Die() {}
